@@ -145,8 +145,26 @@ struct ExtPred {
 
 static void fill_tlwe(TLweSample *c, Rng &r, int mode, LowCtx &cx) {
     const int N = cx.N, k = cx.k;
+    // modes 3/4: per-component magnitude classes - a component is full-range, zero, or SMALL (its d most significant gadget digits
+    // are zero while the lower ones are not): inputs on which "skip what decomposes to zero" shortcuts decide (seeded change C09-g)
+    int cls[8] = {0}, sh[8] = {0};
+    if (mode >= 3) {
+        int d0 = 1 + (int) r.below((uint64_t) std::max(1, cx.l));
+        for (int u = 0; u <= k && u < 8; u++) {
+            cls[u] = mode == 4 ? 2 : (int) r.below(3);
+            int d = mode == 4 ? d0 : 1 + (int) r.below((uint64_t) std::max(1, cx.l));
+            sh[u] = std::min(31, cx.Bgbit * d + 1);          // |v| < 2^(32 - Bgbit*d - 1): balanced digits 1..d are zero
+        }
+    }
     for (int u = 0; u <= k; u++) for (int j = 0; j < N; j++) {
         int32_t v;
+        if (mode >= 3) {
+            int q = std::min(u, 7);
+            v = cls[q] == 1 ? 0 : (int32_t) r.next();
+            if (cls[q] == 2) v = sh[q] >= 31 ? (int32_t) r.range(-1, 1) : (v >> sh[q]);
+            c->a[u].coefsT[j] = v;
+            continue;
+        }
         switch (mode) {
             case 1: { static const int32_t ex[] = {INT32_MIN, INT32_MAX, 0, -1, 1, INT32_MIN + 1, (int32_t) 0x80000200, 0x7ffffe00, 0x00200000, (int32_t) 0xffe00000};
                       v = ex[r.below(10)]; break; }
@@ -191,8 +209,8 @@ static Plan gen_low(uint64_t seed, const Op &opts) {
         std::string k;
         do k = kinds[r.below(7)]; while (!only.empty() && only.find(k) == std::string::npos);
         o.set("k", k).setu("s", r.next());
-        if (k == "extprod") o.seti("var", (int) r.below(3)).seti("m", (int) r.below(6)).seti("cin", (int) r.below(3));
-        if (k == "muxrot") o.seti("fft", (int) r.below(2)).seti("bit", (int) r.below(2)).seti("a", r.bern(0.3) ? (r.bern(0.5) ? 0 : 2047) : (int) r.below(2048)).seti("cin", (int) r.below(2));
+        if (k == "extprod") o.seti("var", (int) r.below(3)).seti("m", (int) r.below(6)).seti("cin", (int) r.below(5));
+        if (k == "muxrot") o.seti("fft", (int) r.below(2)).seti("bit", (int) r.below(2)).seti("a", r.bern(0.3) ? (r.bern(0.5) ? 0 : 2047) : (int) r.below(2048)).seti("cin", (int) r.below(5));
         if (k == "blindrot") o.seti("fft", (int) r.below(2)).seti("n", 1 + (int) r.below(6)).seti("edge", (int) r.below(3));
         if (k == "ks") {
             static const int tb[][2] = {{8, 2}, {16, 1}, {4, 4}, {5, 3}, {15, 2}, {3, 5}, {2, 8}, {10, 3}, {1, 1}, {7, 4}, {31, 1}, {1, 12}, {3, 10}, {2, 12}, {1, 9}};
